@@ -65,6 +65,9 @@ pub fn verify_presentation(
 
     let pres_req = pres_req.value();
 
+    // Ensures that every attribute referent is bound to at most one credential of the presentation
+    check_unique_attr_referents(&presentation.requested_proof)?;
+
     // Ensures that all attributes in the request is also in the presentation
     compare_attr_from_proof_and_request(
         pres_req,
@@ -179,6 +182,25 @@ pub(crate) fn compare_attr_from_proof_and_request(
         ));
     }
 
+    Ok(())
+}
+
+fn check_unique_attr_referents(requested_proof: &RequestedProof) -> Result<()> {
+    let mut referents: HashSet<&String> = HashSet::new();
+    let all_referents = requested_proof
+        .revealed_attrs
+        .keys()
+        .chain(requested_proof.revealed_attr_groups.keys())
+        .chain(requested_proof.unrevealed_attrs.keys());
+    for referent in all_referents {
+        if !referents.insert(referent) {
+            return Err(err_msg!(
+                ProofRejected,
+                "Attribute referent \"{}\" is used more than once in the presentation",
+                referent
+            ));
+        }
+    }
     Ok(())
 }
 
